@@ -6,6 +6,7 @@
 //   thread 0 = producer, thread 1 = consumer; operations as in coq/Model/Ring.v
 #include <cds/container/weak_ringbuffer.h>
 #include <vcase.h>
+#include "watchdog.h"
 #include <deque>
 #include <memory>
 #include <string>
@@ -146,6 +147,7 @@ static void run_on( vcase::Case const& c, size_t cap )
         }
     }, nullptr, nullptr, 20000 );
     vcase::print_log( c );
+    c12wd::logged();
     std::printf( "monitor capacity %zu\n", m.cap );
     std::printf( "monitor counts push_ok %zu push_fail %zu pop_ok %zu pop_fail %zu left %zu\n", m.npush_ok, m.npush_fail, m.npop_ok, m.npop_fail, m.shadow.size());
     if ( m.bad.empty()) std::printf( "monitor ok\n" );
@@ -162,8 +164,10 @@ int main( int argc, char** argv )
 {
     if ( argc < 2 ) { std::fprintf( stderr, "usage: %s casefile\n", argv[0] ); return 2; }
     std::ifstream in( argv[1] );
+    c12wd::start();
     vcase::Case c;
     while ( vcase::read_case( in, c )) {
+        c12wd::arm( c );
         size_t cap = c.cfg.size() > 0 ? (size_t) c.cfg[0] : 2;
         bool exp2 = c.cfg.size() > 1 ? c.cfg[1] != 0 : true;
         long kind = c.cfg.size() > 2 ? c.cfg[2] : 0;
@@ -182,5 +186,6 @@ int main( int argc, char** argv )
             std::printf( "case %s\nendcase unsupported\n", c.id.c_str());
         }
     }
+    c12wd::disarm();
     return 0;
 }
